@@ -15,7 +15,7 @@ import (
 )
 
 var c09Floor = []string{"key", "key.missing", "key.on-array", "key.quoted", "key.quoted.steplike", "key.quoted.plain", "fn.reregistered", "index", "index.multi", "each", "each.flatten", "keep", "range", "range.begin", "range.end",
-	"pipe", "pipe.string", "pipe.number", "pipe.on-array", "continue", "fn.mix", "fn.distinct", "fn.custom", "err.index-oob", "err.index-negative", "err.range-oob", "err.shape", "err.fn", "null.path", "readme.form", "continue.fn-after-null", "pipe.number.zero-padded", "pipe.string.fraction", "pipe.number.on-number"}
+	"pipe", "pipe.string", "pipe.number", "pipe.on-array", "continue", "fn.mix", "fn.distinct", "fn.custom", "err.index-oob", "err.index-negative", "err.range-oob", "err.shape", "err.fn", "null.path", "readme.form", "continue.fn-after-null", "pipe.number.zero-padded", "pipe.string.fraction", "pipe.number.on-number", "range.bound-omitted"}
 
 func init() {
 	genql.RegisterTopLevelFunction("vsize", func(v any) (any, error) {
@@ -179,6 +179,9 @@ func c09Doc(c *fw.Case) map[string]any {
 	doc["rag"] = []any{[]any{1.0, 2.0, 3.0}, []any{}, []any{4.0}}
 	doc["user"] = map[string]any{"id": float64(c.Intn(100)), "createdAt": "2020", "name": "n", "user.name": map[string]any{"key": "k"}}
 	doc["user.name"] = map[string]any{"key": c09Scalar(c)}
+	// keys that differ in their blanks only are different keys
+	doc["user"].(map[string]any)["first name"], doc["user"].(map[string]any)["firstname"], doc["user"].(map[string]any)["first  name"] = "spaced", "joined", "wide"
+	doc["first name"], doc["firstname"] = map[string]any{"key": "spaced"}, map[string]any{"key": "joined"}
 	doc["s"] = "scalar"
 	doc["nul"] = nil
 	doc["empty"] = []any{}
@@ -262,7 +265,7 @@ func c09Selector(c *fw.Case, doc map[string]any, force string, feats *[]string) 
 			k := c.Intn(10)
 			last := i == nd-1
 			switch {
-			case (force == "range" || force == "range.begin" || force == "range.end" || force == "err.range-oob") && last || (k == 0 && last):
+			case (force == "range" || force == "range.begin" || force == "range.end" || force == "range.bound-omitted" || force == "err.range-oob") && last || (k == 0 && last):
 				d := ref.Dim{Kind: ref.DimRange}
 				if l > 0 {
 					d.M = c.Intn(l + 1)
@@ -272,9 +275,13 @@ func c09Selector(c *fw.Case, doc map[string]any, force string, feats *[]string) 
 					d.Begin = true
 					feat("range.begin")
 				}
-				if force == "range.end" || c.Chance(0.25) {
+				if force == "range.end" || force == "range.bound-omitted" || c.Chance(0.25) {
 					d.End = true
 					feat("range.end")
+				}
+				if (d.Begin || d.End) && (force == "range.bound-omitted" || c.Chance(0.4)) {
+					d.Bare = true
+					feat("range.bound-omitted")
 				}
 				if (wantErr && !errPlaced && c.Chance(0.5)) || force == "err.range-oob" {
 					d.End, d.Begin = false, false
